@@ -612,6 +612,21 @@ pub fn run_c05(ctx: &mut Ctx) {
                     p.header.code = MessageClass::from(method);
                     p.add_option(CoapOption::Observe, raw.clone());
                     p.add_option(CoapOption::Observe, alloc_vec_one());
+                    // whatever else the request carries (a block-wise follow-up, conditions, a path ...)
+                    match (v as usize + len) % 5 {
+                        0 => p.add_option(CoapOption::Block2, vec![0x16]),
+                        1 => {
+                            p.add_option(CoapOption::Block2, vec![0x01, 0x02]);
+                            p.add_option(CoapOption::Block1, vec![0x0e]);
+                        }
+                        2 => {
+                            p.add_option(CoapOption::UriPath, b"obs".to_vec());
+                            p.add_option(CoapOption::ETag, vec![1, 2, 3]);
+                            p.add_option(CoapOption::Accept, vec![50]);
+                        }
+                        3 => p.add_option(CoapOption::NoResponse, vec![0x1a]),
+                        _ => {}
+                    }
                     let rq = coap_lite::CoapRequest::from_packet(p, 1u8);
                     rq.get_observe_flag()
                 });
